@@ -565,6 +565,9 @@ func addExploration(ctx *core.Ctx, pl *plan) error {
 			if name == "cmap-wide" && n > 4 {
 				continue // four structures, selected by n%4
 			}
+			if name == "q-flood" && n > 300 {
+				continue // 300 000 operators show it; millions only cost time
+			}
 			if name == "objstm-offsets" && n == 300 {
 				// (one extreme value per file: sizes 1..13 name them all)
 				for _, m := range []int{9, 10, 11, 12, 13, 31, 32, 33, 34, 35} {
